@@ -160,6 +160,45 @@ let rec show (v : DecVal.xval) : string =
   | DecVal.XListH c -> "(heap-list " ^ string_of_int (int_of_nat c) ^ ")"
 and shows vs = String.concat "" (Stdlib.List.map (fun x -> " " ^ show x) vs)
 
+let fval_of = function
+  | "nan" -> Enc.FNaN | "inf0" -> Enc.FInf false | "inf1" -> Enc.FInf true
+  | t when String.length t >= 1 && t.[0] = 'x' -> Enc.FFin (bytes_of_hex (String.sub t 1 (String.length t - 1)))
+  | _ -> failwith "fval"
+
+(* the Go value as printed by harness/cmd/c06/walk.go *)
+let rec xval (s : sx) : DecVal.xval =
+  match s with
+  | L [A "nil"] -> DecVal.XNil
+  | L [A "bool"; A b] -> DecVal.XBool (b = "1")
+  | L [A "int"; A k; A z] -> DecVal.XInt (ikind k, z_of_string z)
+  | L [A "f32"; A f] -> DecVal.XF32 (fval_of f)
+  | L [A "f64"; A f] -> DecVal.XF64 (fval_of f)
+  | L [A "c64"; A a; A b] -> DecVal.XC64 (fval_of a, fval_of b)
+  | L [A "c128"; A a; A b] -> DecVal.XC128 (fval_of a, fval_of b)
+  | L [A "str"; t] -> DecVal.XStr (xbytes t)
+  | L [A "bytes"; t] -> DecVal.XBytes (xbytes t)
+  | L [A "bigint"; A z] -> DecVal.XBigInt (z_of_string z)
+  | L [A "bigfloat"; t] -> DecVal.XBigFloat (xbytes t)
+  | L [A "bigrat"; t] -> DecVal.XBigRat (xbytes t)
+  | L [A "time"; A y; A mo; A d; A h; A mi; A sec; A ns; A utc] ->
+      DecVal.XTime (z_of_string y, z_of_string mo, z_of_string d, z_of_string h, z_of_string mi, z_of_string sec,
+                    z_of_string ns, utc = "1")
+  | L [A "uuid"; t] -> DecVal.XUuid (xbytes t)
+  | L (A "arr" :: vs) -> DecVal.XArr (Stdlib.List.map xval vs)
+  | L (A "struct" :: n :: vs) -> DecVal.XStruct (xbytes n, Stdlib.List.map xval vs)
+  | L [A "iface"; t; v] -> DecVal.XIface (gtype t, xval v)
+  | L [A "ptr"; v] -> DecVal.XPtr (xval v)
+  | L (A "slice" :: vs) -> DecVal.XSlice (Stdlib.List.map xval vs)
+  | L (A "map" :: kvs) -> DecVal.XMap (Stdlib.List.map (function L [k; v] -> (xval k, xval v) | _ -> failwith "map entry") kvs)
+  | L (A "list" :: vs) -> DecVal.XList (Stdlib.List.map xval vs)
+  | L [A "cyc"; A k] -> DecVal.XCycle (nat_of_int (int_of_string k))
+  | _ -> failwith "xval"
+
+let verdict_name = function
+  | DecSpec.VOk -> "ok" | DecSpec.VWrongValue -> "wrongvalue" | DecSpec.VMissingError -> "missingerror"
+  | DecSpec.VSpuriousError -> "spuriouserror" | DecSpec.VPanic -> "panic" | DecSpec.VUnspec -> "unspec"
+  | DecSpec.VSpecMiss (_, _) -> "specmiss"
+
 let eclass_name = function
   | DecVal.ECast -> "cast" | DecVal.EParse -> "parse" | DecVal.ENaNInf -> "naninf" | DecVal.ETagError -> "tagerror"
   | DecVal.EInvalidTag -> "invalidtag" | DecVal.EOther -> "other"
@@ -214,7 +253,30 @@ let run line =
   add "tok" (if Wire.tok_ok w then "1" else "0");
   add "reparse" (match Wire.parse_all bytes with Some w' -> if w' = w then "1" else "0" | None -> "fail");
   add "den" (match WireSem.denote_top w with Some _ -> "1" | None -> "0");
-  (match DecVal.dec_top orc opts te fuel t w with
+  let outcome = DecVal.dec_top orc opts te fuel t w in
+  (* the property's own oracle: representable on the denotation *)
+  let rep = match WireSem.denote_top w with
+    | Some d -> Some (DecSpec.representable orc opts te DecSpec.spec_fuel t d)
+    | None -> None in
+  (match rep with
+   | Some (DecSpec.RSome v) -> add "rep" "some"; add "repval" (String.concat "_" (String.split_on_char ' ' (show v)))
+   | Some DecSpec.RNone -> add "rep" "none"
+   | Some DecSpec.RUnspec -> add "rep" "unspec"
+   | Some (DecSpec.RMissO (fn, arg)) -> add "rep" "miss"; add "rfn" (hex_of_bytes fn); add "rarg" ("x" ^ hex_of_bytes arg)
+   | None -> add "rep" "noden");
+  (match rep with
+   | Some r ->
+       add "mv" (verdict_name (DecSpec.judge r outcome));
+       (* the implementation's observed behaviour, when given *)
+       (try
+         (match field "go" c with
+          | L [A "go"; A "ok"; v] -> add "gv" (verdict_name (DecSpec.judge r (DecVal.OOk (xval v))))
+          | L [A "go"; A "err"] -> add "gv" (verdict_name (DecSpec.judge r (DecVal.OErr DecVal.EOther)))
+          | L [A "go"; A "panic"] -> add "gv" (verdict_name (DecSpec.judge r (DecVal.OPanic DecVal.PShape)))
+          | _ -> ())
+       with Failure _ -> ())
+   | None -> ());
+  (match outcome with
    | DecVal.OOk v -> add "out" "ok"; add "val" (String.concat "_" (String.split_on_char ' ' (show v)))
    | DecVal.OErr e -> add "out" "err"; add "cls" (eclass_name e)
    | DecVal.OPanic p -> add "out" "panic"; add "site" (psite_name p)
